@@ -517,6 +517,48 @@ static int t_mpz_bits (const char *f, int budget)
   printf ("PASS %d\n", budget); return 0;
 }
 
+/* mpf_cmp against the sign of an exact difference computed on integers: both operands scaled to a common exponent */
+static void mk_mpf (mpf_t f, int maxn)
+{
+  int n = rnd64 () % (maxn + 1);
+  mpf_init2 (f, 64 * (maxn + 1));
+  for (int i = 0; i < n; i++) f->_mp_d[i] = pat ();
+  if (n) while (f->_mp_d[n - 1] == 0) f->_mp_d[n - 1] = pat ();
+  if (n >= 2 && rnd64 () % 3 == 0) for (int i = 0; i < 1 + (int) (rnd64 () % (n - 1)); i++) f->_mp_d[i] = 0;          /* low zero limbs */
+  f->_mp_size = (rnd64 () & 1) ? -n : n; f->_mp_exp = n ? (long) (rnd64 () % 5) - 1 : 0;
+}
+static void mpf_to_scaled (mpz_t z, const mpf_t f, long shift_limbs)      /* z = f * B^(shift_limbs), exact (shift large enough) */
+{
+  int n = abs (f->_mp_size);
+  mpz_set_ui (z, 0);
+  for (int i = n - 1; i >= 0; i--) { mpz_mul_2exp (z, z, 64); mpz_add_ui (z, z, f->_mp_d[i]); }
+  mpz_mul_2exp (z, z, 64 * (shift_limbs + f->_mp_exp - n));
+  if (f->_mp_size < 0) mpz_neg (z, z);
+}
+static int t_mpf_cmp (const char *f, int budget)
+{
+  for (int it = 0; it < budget / 4; it++)
+    {
+      mpf_t u, v; mk_mpf (u, 4); mk_mpf (v, 4);
+      if (it % 3 == 0 && u->_mp_size)
+        { /* v = u with extra (or fewer) low limbs: equal common part */
+          int n = abs (u->_mp_size), extra = rnd64 () % 3;
+          for (int i = 0; i < n; i++) v->_mp_d[i + extra] = u->_mp_d[i];
+          for (int i = 0; i < extra; i++) v->_mp_d[i] = (rnd64 () & 1) ? pat () | 1 : 0;
+          v->_mp_size = (u->_mp_size < 0) ? -(n + extra) : (n + extra); v->_mp_exp = u->_mp_exp;
+          if (rnd64 () & 1) mpf_swap (u, v);
+        }
+      mpz_t a, b; mpz_init (a); mpz_init (b);
+      mpf_to_scaled (a, u, 12); mpf_to_scaled (b, v, 12);
+      int want = mpz_cmp (a, b), got = mpf_cmp (u, v);
+      want = want > 0 ? 1 : want < 0 ? -1 : 0; got = got > 0 ? 1 : got < 0 ? -1 : 0;
+      if (got != want)
+        { failed (f); printf (" u(size=%d,exp=%ld)", u->_mp_size, (long) u->_mp_exp); show ("", u->_mp_d, abs (u->_mp_size)); printf (" v(size=%d,exp=%ld)", v->_mp_size, (long) v->_mp_exp); show ("", v->_mp_d, abs (v->_mp_size)); printf (" got=%d want=%d\n", got, want); return 1; }
+      mpf_clear (u); mpf_clear (v); mpz_clear (a); mpz_clear (b);
+    }
+  printf ("PASS %d\n", budget / 4); return 0;
+}
+
 int main (int argc, char **argv)
 {
   if (argc < 4) { fprintf (stderr, "usage: native <function> <seed> <budget>\n"); return 2; }
@@ -536,6 +578,7 @@ int main (int argc, char **argv)
   if (!strncmp (f, "mpz_cmp", 7) || !strncmp (f, "mpz_fits", 8) || !strncmp (f, "mpz_get", 7) || !strncmp (f, "mpz_set_", 8)) return t_mpz_c11 (f, budget);
   if (!strcmp (f, "raw")) { int r1 = t_raw (f, budget); return r1 ? r1 : t_raw_leak (budget); }
   if (!strncmp (f, "mpq_", 4)) return t_mpq (f, budget);
+  if (!strcmp (f, "mpf_cmp")) return t_mpf_cmp (f, budget);
   printf ("no native test for %s\n", f);
   return 3;
 }
